@@ -304,7 +304,7 @@ var implementedCipherSuites = []*cipherSuite{
 	//{TLS_DH_ANON_EXPORT_WITH_RC4_40_MD5, 5, 16, 0, dhAnonKA, suiteExport | suiteAnon, cipherRC4, macMD5, nil},
 	// WARN DSS: Certificate not supported/implemented
 	{TLS_DHE_DSS_WITH_AES_128_CBC_SHA, 16, 20, 16, dheDSSKA, suiteDSS, cipherAES, macSHA1, nil},
-	{TLS_ECDHE_ECDSA_WITH_3DES_EDE_CBC_SHA, 24, 20, 8, ecdheECDSAKA, suiteECDHE | suiteECDSA, cipher3DES, macSHA1, nil},
+	{TLS_ECDHE_ECDSA_WITH_3DES_EDE_CBC_SHA, 24, 20, 8, ecdheECDSAKA, suiteECDHE | suiteECSign, cipher3DES, macSHA1, nil},
 	// WARN: DSS: Certificate not supported/implemented
 	//{TLS_DHE_DSS_WITH_DES_CBC_SHA, 8, 20, 8, dheDSSKA, suiteDSS, cipherDES, macSHA1, nil},
 	{TLS_DHE_DSS_WITH_3DES_EDE_CBC_SHA, 24, 20, 8, dheDSSKA, suiteDSS, cipher3DES, macSHA1, nil},
